@@ -109,6 +109,13 @@ theorem C12_scope_restores (st : St) (s : List Str) (body : List Cmd) :
     (exec1 st (.scope s body)).2 = (execs { st with glob := s } body).2 := by
   simp [exec1]
 
+/-- The two functions `exec1` models are, in the current source, the ones it was written from: the setter rebinds the
+    global to a fresh set (no in-place edit, no validation after the rebinding), the context manager saves, installs
+    inside its `try`, restores in its `finally`. -/
+theorem C12_scope_source_is_the_modelled_one :
+    Gen.ignoreSetterBody = ignoreSetterFrozen ∧ Gen.ignoreScopeBody = ignoreScopeFrozen := by
+  constructor <;> decide +kernel
+
 /-- … inside the scope the override is in force: a comparison that is the first thing in the body reads `s`;
     and a comparison right after the scope reads the old global again. -/
 theorem C12_scope_in_force (st : St) (s : List Str) (rest after : List Cmd) :
